@@ -10,7 +10,7 @@ use std::ffi::OsString;
 
 pub static DEF: PropDef = PropDef {
     id: "C18",
-    rule: "random: a generated tree c/d (<=12 nodes, links included) plus a file, a link to the directory, a dangling link and entries whose names start with '-' or contain newlines/blanks x lists of 0-5 starting points drawn from: every spelling of the same directory (d, ./d, d/, d//, ./d/., d/../d, d/sub/.., absolute, c//d), '.', files, links, dangling links, missing names, duplicates x tail expression (-print0, with -maxdepth 0/1, -mindepth 1/2, -depth or a -name test) x follow mode (-P, -L) x how the list is given: as operands (1 in 5 after a '--'), through -files0-from FILE (with/without final NUL, empty names at any position), through -files0-from - (stdin; built binary). Oracle: stdout == concatenation, in the order given, of the reference walk of each starting point with its spelling as path prefix (no operand => walk of '.'); a starting point that cannot be examined => diagnostic + exit != 0 and every other one still present in order; empty names in a files0 list => a diagnostic, the rest unaffected; metamorphic: find -files0-from F EXPR and find NAMES... EXPR give the same stdout and exit class whenever all names can be written as operands. Non-trivial = >= 2 starting points with at least one non-plain spelling or a failing one, or a files0 list holding a name that cannot be an operand (leading '-', or an empty name). Distinct = distinct case JSON.",
+    rule: "random: a generated tree c/d (<=12 nodes, links included) plus a file, a link to the directory, a dangling link and entries whose names start with '-' or contain newlines/blanks x lists of 0-5 starting points drawn from: every spelling of the same directory (d, ./d, d/, d//, ./d/., d/../d, d/sub/.., absolute, c//d), '.', files, links, dangling links, (under -P) a link to itself, missing names, duplicates x tail expression (-print0, with -maxdepth 0/1, -mindepth 1/2, -depth, a -name test, -xdev or -mount) x follow mode (-P, -L) x how the list is given: as operands (1 in 5 after a '--'), through -files0-from FILE (with/without final NUL, empty names at any position), through -files0-from - (stdin; built binary); in one files0 case out of eight an operand ('.', a file, a directory) is given besides the list (the command line may be rejected or the operand walked too, but the run must differ from one without the operand). Oracle: stdout == concatenation, in the order given, of the reference walk of each starting point with its spelling as path prefix (no operand => walk of '.'); a starting point that cannot be examined => diagnostic + exit != 0 and every other one still present in order; empty names in a files0 list => a diagnostic, the rest unaffected; metamorphic: find -files0-from F EXPR and find NAMES... EXPR give the same stdout and exit class whenever all names can be written as operands. Non-trivial = >= 2 starting points with at least one non-plain spelling or a failing one, or a files0 list holding a name that cannot be an operand (leading '-', or an empty name). Distinct = distinct case JSON.",
     assumptions: &[
         "an empty -files0-from list is not compared with 'no operands' (the statement does not say)",
         "names in a files0 list are valid UTF-8, except for one existing file whose name is not, placed last: it must be walked or reported (diagnostic + non-zero exit), the other names being unaffected",
@@ -42,6 +42,10 @@ pub struct Case {
     /// operands only: "--" between the options and the starting points (or the expression)
     #[serde(default)]
     pub double_dash: bool,
+    /// files0 only: an operand given besides the list (1 ".", 2 "c/f", 3 "c/d"): rejected or walked,
+    /// never dropped in silence
+    #[serde(default)]
+    pub extra_operand: u8,
 }
 
 const RAW_NAME: &[u8] = b"c/raw-\xe9-\xff";
@@ -64,6 +68,11 @@ pub fn gen_case(g: &mut Gen) -> Case {
     tree.nodes.push(Node::new("c/end\n", Kind::Dir));
     tree.nodes.push(Node::new("c/end\n/z", Kind::File));
     let via = g.weighted(&[5, 4, 1]) as u8;
+    let follow_l = g.chance(1, 4);
+    if !follow_l {
+        // a link to itself: under -P an entry like any other (resolving it fails with ELOOP)
+        tree.nodes.push(Node::new("c/lp", Kind::Link("lp".into())));
+    }
     let n = g.weighted(&[1, 3, 4, 3, 2, 1]);
     let sp = dir_spellings();
     let mut roots = vec![];
@@ -72,7 +81,7 @@ pub fn gen_case(g: &mut Gen) -> Case {
             0 => g.pick(&sp),
             1 => "c/f".to_string(),
             2 => "c/l".to_string(),
-            3 => "c/dl".to_string(),
+            3 => if follow_l || g.bool() { "c/dl".to_string() } else { "c/lp".to_string() },
             4 => g.pick(&["c/missing", "nope", "c/d/none/deeper", "c/f/below-a-file"]).to_string(),
             5 => ".".to_string(),
             6 => g.pick(&["c/a b", "c/nl\nname", "c/a b/x\ny", "c/end\n", "c/end\n", "(2024) b", "!imp", ",v", ")x", "+", "{}"]).to_string(),
@@ -93,7 +102,7 @@ pub fn gen_case(g: &mut Gen) -> Case {
         roots.push(d);
     }
     let empties = if via != 0 && g.chance(1, 3) { g.vec_of(1, 2, |g| g.usize_in(0, 5)) } else { vec![] };
-    Case { tree, roots, via, final_nul: g.chance(2, 3), empties, tail: g.weighted(&[4, 2, 2, 2, 1, 2, 1]) as u8, follow_l: g.chance(1, 4), binary: via == 2 || g.chance(1, 10), raw_last: via != 0 && g.chance(1, 6), double_dash: via == 0 && g.chance(1, 5) }
+    Case { tree, roots, via, final_nul: g.chance(2, 3), empties, tail: g.weighted(&[4, 2, 2, 2, 1, 2, 1, 2, 1]) as u8, follow_l, binary: via == 2 || g.chance(1, 10), raw_last: via != 0 && g.chance(1, 6), double_dash: via == 0 && g.chance(1, 5), extra_operand: if via != 0 && g.chance(1, 8) { 1 + g.below(3) as u8 } else { 0 } }
 }
 
 fn tail_tokens(t: u8) -> Vec<&'static str> {
@@ -104,6 +113,9 @@ fn tail_tokens(t: u8) -> Vec<&'static str> {
         4 => vec!["-sorted", "-maxdepth", "0", "-print0"],
         5 => vec!["-sorted", "-mindepth", "1", "-print0"],
         6 => vec!["-sorted", "-mindepth", "2", "-print0"],
+        // (the sandbox holds no mount point: -xdev / -mount change nothing about the walk)
+        7 => vec!["-sorted", "-xdev", "-print0"],
+        8 => vec!["-sorted", "-mount", "-maxdepth", "1", "-print0"],
         _ => vec!["-sorted", "-print0"],
     }
 }
@@ -124,7 +136,7 @@ fn expected(roots: &[String], tail: u8, follow: FollowMode) -> Expect {
             _ => 0,
         },
         max_depth: match tail {
-            1 => 1,
+            1 | 8 => 1,
             4 => 0,
             _ => usize::MAX,
         },
@@ -206,6 +218,10 @@ pub fn check(ctx: &mut Ctx, c0: &Case) -> Outcome {
     if c.follow_l {
         args.push("-L".into());
     }
+    let extra_operand = if c.via != 0 { [None, Some("."), Some("c/f"), Some("c/d")][c.extra_operand as usize % 4] } else { None };
+    if let Some(op) = extra_operand {
+        args.push(op.to_string());
+    }
     let mut stdin = None;
     let mut list: Vec<String> = c.roots.clone();
     let mut n_empty = 0;
@@ -265,6 +281,20 @@ pub fn check(ctx: &mut Ctx, c0: &Case) -> Outcome {
         1 => "files0-file",
         _ => "files0-stdin",
     };
+    if let Some(op) = extra_operand {
+        // a starting point given as an operand besides the list: the command line may be rejected
+        // (nothing walked, diagnostic, non-zero status) or the operand walked as well; what must not
+        // happen is a run that cannot be told from one without the operand
+        cleanup(ctx);
+        if exp.out.is_empty() || c.raw_last {
+            return Pass::discard("operand besides a files0 list whose walk prints nothing");
+        }
+        let rejected = out.is_empty() && status != 0 && !err.is_empty();
+        if !rejected && out == exp.out {
+            return fail(format!("C18:operand-besides-files0-list-dropped-silently:{}", if op == "." { "dot" } else { "other" }), format!("find {args:?}   [{via_s}; list {list:?}]\nexit {status}\nstderr {:?}\nstdout {:?}\nthe operand {op:?} was neither walked nor diagnosed", lossy(&err), lossy(&out)));
+        }
+        return Pass::new(true).class("operand-besides-files0-list").class(if rejected { "operand-besides-files0-list:rejected" } else { "operand-besides-files0-list:walked" }).ok();
+    }
     // the name that is not valid UTF-8 (last in the list): either walked like any other existing file
     // (its path, byte for byte, ends the output where the tail expression selects a depth-0 file) or
     // reported as a starting point that cannot be examined - never passed over in silence
